@@ -197,11 +197,15 @@ def r3(run, ctx):
     cfg = ctx.cfg(f)
     kills = ctx.nodes_calling(f, [W + 'kill_process'])
     sel = None
+    from sa.dataflow import reaching_defs
+    rd = reaching_defs(ctx, f)
     for h in cfg.nodes:
-        if h.kind == 'iter' and isinstance(h.ast.iter, ast.Subscript):
-            sub = h.ast.iter
-            if isinstance(sub.value, ast.Call) and dotted(sub.value.func) == 'sorted':
-                sel = (h, sub)
+        if h.kind == 'iter':
+            for alt in rd.expand(h, h.ast.iter):
+                sub = alt.expr
+                if isinstance(sub, ast.Subscript) and isinstance(sub.value, ast.Call) and \
+                        dotted(sub.value.func) == 'sorted':
+                    sel = (h, sub)
     if sel is None:
         raise AnalysisError('C01 R3: unrecognised surplus selection in manage_processes '
                             '(expected a slice of sorted(processes, key=started))')
